@@ -41,7 +41,7 @@ def run(ctx):
         k = json.dumps(s, sort_keys=True)
         if k not in seen:
             seen.add(k); uniq.append(s)
-    limit = 12000 if not ctx.thorough else 400000
+    limit = 12000 if not ctx.thorough else 150000
     exhaustive = len(uniq) <= limit
     if not exhaustive:
         random.Random(ctx.seed).shuffle(uniq)
